@@ -284,7 +284,8 @@ Definition parse_val (ty:vtype) (tok:text) : dvalue :=
   end.
 
 Record lstate := mkL { l_ed : Z; l_seq : list item }.      (* l_seq: most recent first *)
-Definition load_line (T:tables) (st:lstate) (line0:text) : lstate :=
+(* one line; vals = how the list behind the VALUE keyword is read (the text behind the delimiter that ended the keyword) *)
+Definition load_line_gen (vals:vtype -> text -> list dvalue) (T:tables) (st:lstate) (line0:text) : lstate :=
   let line := cut0 line0 in
   if (match line with c :: _ => (c =? 35) || (c =? 42) | [] => false end) then st      (* '#', '*' *)
   else if starts s_LOCAL_TABLEB line || starts s_MASTER_TABLEB line
@@ -300,31 +301,36 @@ Definition load_line (T:tables) (st:lstate) (line0:text) : lstate :=
     | Some (tok, r) =>
       let d := atoi tok in
       let ty := vtype_of T d in
-      let vals :=
+      let vs :=
         match strtok dl_sp_tab_nl_comma_eq r with
-        | Some (k, r2) =>
-            if text_eqb k s_VALUE then
-              match strtok dl_tab_nl_comma_eq r2 with
-              | Some (v1, r3) => parse_val ty v1 :: map (parse_val ty) (tokens dl_tab_nl_comma r3 [])
-              | None => []
-              end
-            else []
+        | Some (k, r2) => if text_eqb k s_VALUE then vals ty r2 else []
         | None => []
         end in
-      mkL (l_ed st) (mkItem d vals :: l_seq st)
+      mkL (l_ed st) (mkItem d vs :: l_seq st)
     end.
-Definition load_lines (T:tables) (lines:list text) : lstate := fold_left (load_line T) lines (mkL 4 []).
+(* the code as it stands: the first value up to \t \n , = and the further ones up to \t \n , *)
+Definition legacy_values (ty:vtype) (r2:text) : list dvalue :=
+  match strtok dl_tab_nl_comma_eq r2 with
+  | Some (v1, r3) => parse_val ty v1 :: map (parse_val ty) (tokens dl_tab_nl_comma r3 [])
+  | None => []
+  end.
+Definition load_line : tables -> lstate -> text -> lstate := load_line_gen legacy_values.
+Definition load_lines_gen (vals:vtype -> text -> list dvalue) (T:tables) (lines:list text) : lstate :=
+  fold_left (load_line_gen vals T) lines (mkL 4 []).
+Definition load_lines : tables -> list text -> lstate := load_lines_gen legacy_values.
 
 (* bufr_is_descriptor *)
 Definition is_descriptor (d:Z) : bool := (0 <=? d) && (dF d <=? 3) && (dY d <? 256).
 (* bufr_finalize_template: every descriptor valid and known, replication resolvable (C10: Fm94Exp.accepts) *)
 Definition finalize_ok (fuel:nat) (T:tables) (ds:list Z) : bool := forallb is_descriptor ds && accepts fuel T ds.
 
-Definition parse_lines (T:tables) (lines:list text) : template :=
-  let st := load_lines T lines in mkTmpl (l_ed st) (rev (l_seq st)).
-Definition load (fuel:nat) (T:tables) (lines:list text) : result template :=
-  let t := parse_lines T lines in
+Definition parse_lines_gen (vals:vtype -> text -> list dvalue) (T:tables) (lines:list text) : template :=
+  let st := load_lines_gen vals T lines in mkTmpl (l_ed st) (rev (l_seq st)).
+Definition load_gen (vals:vtype -> text -> list dvalue) (fuel:nat) (T:tables) (lines:list text) : result template :=
+  let t := parse_lines_gen vals T lines in
   if finalize_ok fuel T (descs t) then Ok t else Err Reject.
+Definition parse_lines : tables -> list text -> template := parse_lines_gen legacy_values.
+Definition load : nat -> tables -> list text -> result template := load_gen legacy_values.
 Definition load_text (fuel:nat) (T:tables) (s:text) : result template := load fuel T (split_nl s []).
 
 (* ------------------------------------------------------------------ bufr_copy_template *)
